@@ -149,6 +149,7 @@ def check(tier):
             c["id"] = k + 1
             _, e = run_cases(binp, [c], sc, "confirm%d" % k)
             cends += e
+        unreproduced = []
         if cends:
             cmm, _, _ = validate(cends, sc, "confirm")
             for k, (sig, m) in enumerate(conf):
@@ -159,7 +160,15 @@ def check(tier):
                     d["occurrences_this_run"] = len(by_sig[sig])
                     v.add(sig, d)
                 else:
-                    raise lib.Inconclusive("mismatch did not reproduce in isolation: %s (case %s)" % (sig, by_id[m["id"]]))
+                    unreproduced.append({"signature": sig, "case": by_id[m["id"]], "got": m["got"]})
+        # A mismatch that does not show again alone is never a violation. It makes the run inconclusive unless
+        # other mismatches WERE reproduced (a well-formed login draws a fresh salt per connection, so an
+        # outcome that depends on the salt cannot be had again on demand; the chosen-salt attempts are the
+        # reproducible form of that case).
+        if unreproduced and not v.violations:
+            raise lib.Inconclusive("mismatch did not reproduce in isolation: %s (case %s)" % (unreproduced[0]["signature"], unreproduced[0]["case"]))
+        for u in unreproduced:
+            lib.log("[C40] note: not reproduced in isolation (not counted): %s" % u["signature"])
         missing = [f["id"] for f in v.findings if f["id"] not in v.known]
         if missing:
             lib.log("[C40] note: known finding(s) %s did not show this run (fixed?)" % missing)
@@ -221,6 +230,7 @@ def check(tier):
             "by_outcome": rep["extra"]["by_outcome"],
             "server_crashes": rep["extra"]["server_crashes"], "server_panics_logged": rep["extra"]["server_panics_logged"],
             "mismatch_signatures": {s: len(ms) for s, ms in by_sig.items()}, "forged_trace_selftest": forged,
+            "unreproduced_mismatches": unreproduced,
         }, time.time() - t0, violations=len(v.violations),
             assumptions=["password knowledge abstracted to label equality; the scramble/hash arithmetic is the real code's",
                          "client address 127.0.0.1 only; host patterns are varied on the account side",
